@@ -64,6 +64,8 @@ let run (args : (string * string) list) : string =
     oracle "tjs" sg tab_s "tjs" tjs;
     oracle "ss" sg tab_s "ss" ss;
     if status "tj" = "ok" then corr "tj" (tarjan g) tj;
+    add "i_early" (if tarjan_early g then "yes" else "no");
+    add "i_k" (string_of_int (snd tj));
     if status "ko" = "ok" then begin
       corr "ko" (kosaraju g (transpose g)) ko;
       if not big then add "fin" (if finish_orderedb g (top_sort g) then "ok" else fail "finish-order")
